@@ -156,10 +156,8 @@ RowFails(e) ==
        \cup (IF RowBad(e) THEN {"row_content"} ELSE {})
        \cup (IF ConfigBad(e) THEN {"config_record"} ELSE {})
   ELSE IF pc = "emit" THEN {"row_unexpected"}
-  ELSE IF pc = "loop" /\ rowsAt = 1 /\ emitStep # 1 THEN
-       \* a repeated, identical row for a further deadline that has passed
-       (IF e.time # lastRow THEN {"row_time"} ELSE {})
-       \cup (IF RowBad(e) THEN {"row_content"} ELSE {})
+  \* (one row per time: a further row for a further deadline that has passed
+  \*  at the same time is a row too many - time keys are strictly increasing)
   ELSE IF pc \in {"loop", "poll", "idle"} THEN {"row_unexpected"}
   ELSE {"struct"}
 
